@@ -65,10 +65,10 @@ claim("C07", "Contract of every Set operation (insert, replace, contains, get, r
       "Verus proves Set::insert/replace/get/take/remove/contains/clear/len/is_empty/capacity for all N against the Map contracts.",
       BOUND + VASSUME + TB, KH + "; Set projections discharged by Verus against the Map contracts", "DESIGN 6/C07")
 claim("C08", "For all pairs of well-formed sets at the instantiated capacity pairs and every fill level: union/intersection/difference/symmetric_difference traversals yield, for a symbolic probe, each element of the mathematical result exactly once and nothing else; "
-      "size_hint brackets the remaining count before every step; None stays None; fold equals next; intersection/difference items point into the left operand; predicates equal the mathematical truth value; '-' yields the difference; difference_ref likewise; operands unchanged.",
-      "Bounded in capacity: quick pairs up to (2,1), thorough up to (3,2)/(2,3); " + TB, KH + " with unrolled traversals", "DESIGN 6/C08")
+      "size_hint brackets the remaining count before every step; None stays None; fold equals next; intersection/difference items point into the left operand; predicates equal the mathematical truth value; '-' yields the difference; difference_ref likewise; operands unchanged. Verus proves for all N, M: Difference/DifferenceRef/Intersection::next one step (first element still to come that is not / is in the other operand), their size_hint by exact formula (max(0, rem-|other|), Some(rem)) / (0, Some(min(rem,|other|))), the constructors, is_subset/is_superset/is_disjoint.",
+      "Bounded in capacity: quick pairs up to (2,1), thorough up to (3,2)/(2,3); that the size_hint bounds bracket the remaining count is a Kani-only (bounded) obligation; Verus assumes the contracts of Iter::size_hint/IterMut::size_hint and Option::copied; " + TB, KH + " with unrolled traversals; Verus for one-step next/size_hint/predicates", "DESIGN 6/C08")
 claim("C09", "iter, iter_mut, keys, values, values_mut, &map/&mut map into_iter, Set::iter: the j-th item is the j-th live slot, len()/size_hint() exact before every step, count() agrees, None after the end, clones continue identically, "
-      "a second traversal sees the same order (state unchanged), writes through iter_mut/values_mut are what lookups return. Verus proves for all N: Map::iter hands out exactly the slots below len in order, and one step of Iter::next yields the first of them as (&key, &value) and consumes nothing else.", BOUND + VASSUME + TB, KH + "; Verus for Map::iter and Iter::next", "DESIGN 6/C09")
+      "a second traversal sees the same order (state unchanged), writes through iter_mut/values_mut are what lookups return. Verus proves for all N: Map::iter hands out exactly the slots below len in order, and one step of Iter::next yields the first of them as (&key, &value) and consumes nothing else; size_hint/len of Keys, Values, ValuesMut, SetIter, IterMut are exact given the (assumed, Kani-discharged) contracts of Iter::size_hint and IterMut::size_hint.", BOUND + VASSUME + TB, KH + "; Verus for Map::iter and Iter::next", "DESIGN 6/C09")
 claim("C10", "into_iter/into_keys/into_values/drain and Set equivalents yield exactly the stored entries, each once (matched against unseen slots), with exact len/size_hint before every step and None forever after; "
       "after drain (dropped after any number of steps, or forgotten) the map is empty and reusable; token ledger confirms single destruction; Verus proves IntoIter::next/size_hint/len/count for all N.",
       BOUND + TB, KH + "; Verus for IntoIter", "DESIGN 6/C10")
@@ -77,8 +77,8 @@ claim("C11", "entry(k) is Occupied iff present; or_insert/or_insert_with/or_inse
       "Verus proves for all N: entry(k) (Occupied at the first slot whose key equals k, else Vacant carrying k; table untouched), VacantEntry::insert = insert + a reference to the slot used, or_insert/or_insert_with/or_insert_with_key, and the OccupiedEntry/VacantEntry accessors.", BOUND + VASSUME + TB, KH + "; entry API discharged by Verus", "DESIGN 6/C11")
 claim("C12", "With keys equal on id but distinguishable by tag (shape S_id): insert, checked_insert (both branches incl. full map), Set::insert and every entry path keep the stored key and drop the supplied one; insert_key_value and Set::replace store the supplied key and return the old one; "
       "get_key_value, Set::get, take, remove_entry and all iterators expose the stored tag. Verus proves for all N both update_key branches of insert_i and that insert/checked_insert/Set::insert pass update_key=false while insert_key_value/Set::replace pass true, and that get_key_value/Set::get/take/remove_entry return the stored object.", BOUND + VASSUME + TB, KH + " on shape S_id; Verus for insert_i and the wrappers", "DESIGN 6/C12")
-claim("C13", "For pairwise different keys (J up to 3 quick / 4 thorough, any mix of present/absent, J may exceed len and N): each position equals get_mut in value and address, references pairwise distinct, writes land exactly on the requested values; "
-      "two equal present keys: the call never returns and only the 'Overlapping keys' assertion fails, in both build profiles.", "Bounded: N<=3, J<=4; core's large-slice sort path is cut by a stub that asserts it is unreachable. " + TB, KH, "DESIGN 6/C13")
+claim("C13", "For pairwise different keys (J up to 3 quick / 4 thorough; the unchecked body also with J = 5 at N <= 2, thorough J = 6, 8, any mix of present/absent, J may exceed len and N): each position equals get_mut in value and address, references pairwise distinct, writes land exactly on the requested values; "
+      "two equal present keys: the call never returns and only the 'Overlapping keys' assertion fails, in both build profiles.", "Bounded: N<=3, J<=4 (J<=8 at N<=2 for the unchecked body); core's large-slice sort path is cut by a stub that asserts it is unreachable. " + TB, KH, "DESIGN 6/C13")
 claim("C14", "a==b iff same length and both inclusions with equal values (oracle independent of the implementation's one-directional shortcut), symmetric, reflexive, != is the negation, neither operand modified; all capacity pairs up to 3x3, all slot orders; Map and Set. "
       "Verus proves Map::eq for ALL capacities N and M: true exactly when the lengths agree and every binding of the left map is bound to an equal value in the right map (with unique keys, C05, that is extensional equality).",
       BOUND + VASSUME + TB, KH + "; Map::eq discharged by Verus", "DESIGN 6/C14")
@@ -92,8 +92,8 @@ claim("C18", "insert_unchecked under (len<N or key present): Verus proves for al
       "Verus also proves insert_unchecked itself against exactly the interface contract of insert (insert_rel); get_disjoint_unchecked_mut under pairwise different keys satisfies the C13 contract (Kani).", BOUND + VASSUME + TB, "Verus contract on insert_i (all N); " + KH, "DESIGN 6/C18")
 
 claim("C19", "Shape S_fmt (one marker byte per element, comparing sink over a fixed buffer): Display of Map/Set equals '{' + entries joined by ', ' + '}' built by hand; Debug of Map/Set equals core::fmt's debug_map/debug_set over an independently built array of the entries; "
-      "Debug of Iter, IterMut, Keys, Values, ValuesMut, IntoIter, IntoKeys, IntoValues, Drain after a given number of steps equals debug_list of the not-yet-yielded entries; Debug of Union/Intersection/Difference equals debug_list of what a clone still yields; container unchanged.",
-      "Bounded: N<=2 quick / 3 thorough with every fill level; the alternate form {:#?} only for the empty container in quick and N=1 in thorough (core's PadAdapter costs ~12 min per entry under CBMC); SymmetricDifference and DifferenceRef Debug only in thorough / not covered. core::fmt is verified along, not trusted. " + TB,
+      "Debug of Iter, IterMut, Keys, Values, ValuesMut, IntoIter, IntoKeys, IntoValues, Drain after a given number of steps equals debug_list of the not-yet-yielded entries; Debug of Union/Intersection/Difference equals debug_list of what a clone still yields; for Intersection and Difference additionally at 3x2/2x3 (thorough 3x3, 4x2) at the level of the items handed to DebugList::entries (entries replaced by a recording stub); formatting parameters ({:.1?}) reach the entries of Map and Set as in core's own rendering; container unchanged.",
+      "Bounded: N<=2 quick / 3 thorough with every fill level; the alternate form {:#?} only for the empty container in quick and N=1 in thorough (core's PadAdapter costs ~12 min per entry under CBMC); SymmetricDifference and DifferenceRef Debug only in thorough / not covered. core::fmt is verified along, not trusted - except in the item-level units c19_debug_items_*, where DebugList::entries is stubbed (assumed: renders each item once, in order). " + TB,
       KH + " with an oracle rendered by core::fmt itself", "DESIGN 6/C19")
 claim("C20", "With --features serde: bincode (legacy config) encode_into_slice announces len() and emits exactly len() entries (8+2*len bytes; 8+len for sets); decode_from_slice into a container of capacity M>=len (including M==len, M>N) yields an equal container with exactly the original bindings and consumes all bytes; Map and Set; every fill level.",
       "Bounded: N,M<=2 quick / 3 thorough; serde 1.0.219 and bincode 2.0.1 are trusted (verified along by CBMC but not specified). " + TB, KH + " on the serde feature build", "DESIGN 6/C20")
